@@ -42,6 +42,18 @@ impl Violation {
 
 pub type Check = Result<(), Violation>;
 
+/// Reserved oracle id: a scenario ends a run early without a verdict (after counting a known
+/// finding that makes the rest of the run meaningless).
+pub const STOP: &str = "__stop__";
+
+/// Executes a plan; a STOP pseudo-violation is "no violation".
+pub fn run_plan(scen: &dyn Scenario, plan: &Plan, ctx: &mut Ctx) -> Check {
+    match scen.execute(plan, ctx) {
+        Err(v) if v.oracle == STOP => Ok(()),
+        r => r,
+    }
+}
+
 /// Per-run context: event log digest, counters. Never reads a clock, never draws randomness.
 pub struct Ctx {
     pub seq: u64,
